@@ -68,6 +68,7 @@ def enclosing_theorem(vfile, line):
 def proof_status(ctx, mod):
     """build the property's theorems; returns dict(ok, obligations, discharged, broken, axioms, log)"""
     st = dict(ok=True, obligations=0, discharged=0, broken=[], axioms={}, forbidden=[], log="")
+    C.sync_alt_coq()
     props = os.path.join(C.COQ, mod.PROPS_FILE)
     deps = C.coq_dep_files(props)
     own = [f for f in deps if "/Gen/" not in f]
